@@ -27,7 +27,17 @@ def gen_areas(rng, max_areas=8, multi_zone=True):
         ln = rng.choice([1, 2, 16, 255, 256, 1000, rng.randint(1, 3000)])
         if start + ln > 0xffffffff:
             break
-        areas.append((start, rng.randbytes(ln)))
+        data = rng.randbytes(ln)
+        k = rng.random()
+        if k < 0.08:
+            data = bytes(ln)                      # an area of zeros (bss-like, padding)
+        elif k < 0.12:
+            data = b"\xff" * ln                   # erased flash
+        elif k < 0.16:
+            data = bytes(ln - 1) + b"\x01"        # zeros but for one byte
+        elif k < 0.2:
+            data = (b"\x00" * (ln // 2) + data)[:ln]   # zeros then data
+        areas.append((start, data))
         cursor = start + ln
     return areas
 
